@@ -118,12 +118,6 @@ Qed.
 Section Route.
   Variables (prios : list string) (urls : urlmap) (ft : ftypes) (frags : list fragdef).
 
-  Lemma route_sels_cons fuel ptype ploc path x r :
-    route_sels fuel prios urls ft frags ptype ploc path (x :: r) =
-    (a <- route fuel prios urls ft frags ptype ploc path x ;;
-     b <- route_sels fuel prios urls ft frags ptype ploc path r ;; Ok (a ++ b)).
-  Proof. reflexivity. Qed.
-
   (* the location of a plainly written field: the chooser applied to the services declaring it on
      the type it is selected on, with the enclosing field's location as parent *)
   Theorem route_field fuel ptype ploc path alias name args dirs sub l :
@@ -141,23 +135,43 @@ Section Route.
       injection H as <-. eexists; split; reflexivity.
   Qed.
 
-  (* inside the body of [route (S fuel)] the local list traversal is route_sels *)
-  Lemma route_inline fuel ptype ploc path tcond dirs sub :
+  (* inside [route (S fuel)] the traversal of a sub-selection is route itself *)
+  Lemma route_one_is_route fuel ptype ploc path s :
+    route (S fuel) prios urls ft frags ptype ploc path s =
+    (fix route_one (ptype ploc : string) (path : list string) (s : sel) {struct s} : res (list routed) :=
+         match s with
+         | Field alias name _ _ sub =>
+             possible <- url_for urls ptype name ;;
+             let loc := selectLocation prios possible ploc in
+             let here := {| r_path := path ++ [rkey alias name]; r_name := name; r_tcond := ptype; r_loc := loc |} in
+             match sub with
+             | [] => Ok [here]
+             | _ => match assoc (url_key ptype name) ft with
+                    | None => Err "no type for field"
+                    | Some t => below <- route_map (route_one t loc (path ++ [rkey alias name])) sub ;; Ok (here :: below)
+                    end
+             end
+         | Inline tcond _ sub =>
+             route_map (route_one (if String.eqb tcond "" then ptype else tcond) ploc path) sub
+         | Spread name _ =>
+             match frag_for name frags with
+             | None => Err "Could not find definition for fragment"
+             | Some f => route_map (route fuel prios urls ft frags (f_tcond f) ploc path) (f_sel f)
+             end
+         end) ptype ploc path s.
+  Proof. reflexivity. Qed.
+
+  Lemma route_map_ext (f g : sel -> res (list routed)) l : (forall x, f x = g x) -> route_map f l = route_map g l.
+  Proof. intros H. induction l as [|x r IH]; simpl; [reflexivity|]. rewrite H, IH. reflexivity. Qed.
+
+  Theorem route_inline fuel ptype ploc path tcond dirs sub :
     route (S fuel) prios urls ft frags ptype ploc path (Inline tcond dirs sub) =
     route_sels (S fuel) prios urls ft frags (if String.eqb tcond "" then ptype else tcond) ploc path sub.
-  Proof.
-    cbn [route]. generalize (if String.eqb tcond "" then ptype else tcond). intros t.
-    induction sub as [|x r IH]; [reflexivity|].
-    rewrite route_sels_cons. rewrite <- IH. reflexivity.
-  Qed.
+  Proof. unfold route_sels. cbn [route]. apply route_map_ext. intros x. reflexivity. Qed.
 
-  Lemma route_spread fuel ptype ploc path name dirs f :
+  Theorem route_spread fuel ptype ploc path name dirs f :
     frag_for name frags = Some f ->
     route (S fuel) prios urls ft frags ptype ploc path (Spread name dirs) =
     route_sels fuel prios urls ft frags (f_tcond f) ploc path (f_sel f).
-  Proof.
-    intros Hf. cbn [route]. rewrite Hf.
-    induction (f_sel f) as [|x r IH]; [reflexivity|].
-    rewrite route_sels_cons. rewrite <- IH. reflexivity.
-  Qed.
+  Proof. intros Hf. unfold route_sels. cbn [route]. rewrite Hf. reflexivity. Qed.
 End Route.
